@@ -25,7 +25,7 @@ ASSUMPTIONS = [
     "statistics 28-31 are taken in their implemented reading (step of two, intersected with records), see DESIGN §3",
 ]
 REQUIRED = ["named.checked", "listing.checked", "tools.distribution", "tools.preserved", "tools.transformed.nonempty", "tools.equidistributed",
-            "calls.Perm.count_inversions", "calls.Perm.holeyness", "calls.Perm.rtlmax_ltrmin_decomposition", "calls.Perm.cycle_decomp"]
+            "calls.Perm.count_inversions", "calls.Perm.holeyness", "calls.Perm.rtlmax_ltrmin_decomposition", "calls.Perm.cycle_decomp", "aliasing.mutated_results"]
 MIN_NONTRIVIAL = 3000
 CTX = None
 MON = None
@@ -120,6 +120,9 @@ GENERATORS = {"inversions", "non_inversions", "peaks", "pinnacles", "valleys", "
               "strong_fixed_points", "cyclic_peaks", "cyclic_valleys", "double_excedance", "double_drops", "all_bonds", "inc_bonds", "dec_bonds",
               "rtlmax_ltrmin_decomposition", "descents", "ascents"}
 HOLEY_MAX = {"quick": 6, "thorough": 7}
+MUTABLE_RESULTS = ["cycle_decomp", "descent_set", "ascent_set", "peak_list", "valley_list", "bend_list", "pinnacle_set", "cyclic_peaks_list",
+                   "cyclic_valleys_list", "double_excedance_list", "double_drops_list", "foremaxima", "afterminima", "aftermaxima", "foreminima",
+                   "rank_encoding", "threepats", "fourpats", "longestruns_ascending", "longestruns_descending"]
 
 
 def known_for(name, p, got):
@@ -219,6 +222,23 @@ def chk_perm(ctx, p):
                 list(res)
     if len(p) >= 2:
         P.min_gapsize()
+    # history / aliasing: a caller that consumes or alters a returned container must not change later answers
+    # (the second round of calls is judged by the monitors like any other call)
+    for name in MUTABLE_RESULTS:
+        res = getattr(P, name)()
+        try:
+            if hasattr(res, "clear"):
+                res.clear()
+            elif isinstance(res, tuple) and res and isinstance(res[-1], list):
+                res[-1].clear()
+        except (TypeError, AttributeError):
+            continue
+        ctx.count("aliasing.mutated_results")
+        again = getattr(P, name)()
+        if name in GENERATORS:
+            list(again)
+    for name in ("count_cycles", "order", "cycle_notation", "count_inversions", "count_rtlmax_ltrmin_layers", "count_peaks", "length_of_longestrun_ascending"):
+        getattr(P, name)()
     # count form == size of listing form (on the real functions)
     pairs = [("count_descents", "descent_set"), ("count_ascents", "ascent_set"), ("count_peaks", "peak_list"), ("count_valleys", "valley_list"),
              ("count_inversions", "inversions"), ("count_non_inversions", "non_inversions"), ("count_fixed_points", "fixed_points"),
